@@ -222,13 +222,60 @@ def _r3(ctx):
     pairs = sorted((C.text(C.call_args(n)[3]), C.text(C.call_args(n)[4])) for n in dcalls)
     ctx.decide(pairs == [("ri", "rj"), ("rj", "ri")], "C14-R3", C.line(ks), GEO, "kabsch_sander", "energies computed for (ri,rj) and (rj,ri)", "", "donor/acceptor pairs evaluated: %s" % pairs)
     r3_hydrogen_value(ctx)
-    # store_energies: best two
+    r3_store_energies(ctx, cf)
+
+
+def r3_store_energies(ctx, cf):
+    """store_energies keeps, per donor, the two lowest energies with their acceptors: by value numbering of the slots on each of its paths."""
+    from ..symval import SymExec, State, Ptr, Unsupported
+    from ..poly import Poly, Rat
     se = cf.function(GEO, "store_energies")
-    t = re.sub(r"\s", "", " ".join(C.text(n) for n in C.walk(se) if n["kind"] == "IfStmt" for n in [C.kids(n)[0]]))
-    ctx.decide("(e<existing_e0)" in t and ("(e<henergies[((2*donor)+1)])" in t or "(e<existing_e1)" in t), "C14-R3", C.line(se), GEO, "store_energies", "keeps the two lowest energies (e < e0, else e < e1)", "",
-               "best-two bookkeeping conditions are %s" % t[:120])
-    shifts = [re.sub(r"\s", "", C.text(n)) for n in C.walk(se) if n["kind"] == "BinaryOperator" and n.get("opcode") == "="]
-    ctx.decide("(hbonds[((2*donor)+1)]=hbonds[(donor*2)])" in shifts and "(henergies[((2*donor)+1)]=existing_e0)" in shifts, "C14-R3", C.line(se), GEO, "store_energies", "previous best moves to slot 1", "", "slot shifting changed: %s" % shifts[:4])
+    ctx.analysed_functions.add(GEO + ":store_energies")
+    ex = SymExec(cf, GEO)
+    st = State()
+    ps = [p.get("name") for p in C.fparams(se)]
+    if len(ps) != 5:
+        raise AnalysisError("store_energies: expected (hbonds, henergies, donor, acceptor, e), found %s" % ps)
+    hb, he, donor, acc, e = ps
+    st.env[hb], st.env[he] = Ptr("HB", 0), Ptr("HE", 0)
+    for p_, nm in ((donor, "d"), (acc, "acc"), (e, "e")):
+        st.env[p_] = Rat(Poly.var(nm))
+    try:
+        outs = ex.run(C.kids(C.body_of(se)), st)
+    except Unsupported as x:
+        ctx.undecided("C14-R3", C.line(se), GEO, "store_energies", "best-two bookkeeping", "not evaluable: %s" % x)
+        return
+    E0, E1, A0, A1 = "HE[2*d]", "HE[1 + 2*d]", "HB[2*d]", "HB[1 + 2*d]"
+
+    def slot(o, base, idx, default):
+        v = o.env.get((base, idx))
+        return repr(v) if v is not None else default
+
+    def lower_than(c, x):
+        c = c.replace("__builtin_", "")
+        return c in ("(isnan(%s)||(e<%s))" % (x, x), "((e<%s)||isnan(%s))" % (x, x), "(isnan(%s)||(%s>e))" % (x, x))
+    want = {"first": ("e", "acc", E0, A0), "second": (E0, A0, "e", "acc"), "none": (E0, A0, E1, A1)}
+    seen = {}
+    bad = None
+    for o in outs:
+        cv = [(str(c), p_) for c, p_ in o.cvals]
+        if len(cv) == 1 and cv[0][1] and lower_than(cv[0][0], E0):
+            kind = "first"
+        elif len(cv) == 2 and not cv[0][1] and lower_than(cv[0][0], E0) and cv[1][1] and lower_than(cv[1][0], E1):
+            kind = "second"
+        elif len(cv) == 2 and not cv[0][1] and not cv[1][1] and lower_than(cv[0][0], E0) and lower_than(cv[1][0], E1):
+            kind = "none"
+        else:
+            bad = bad or "a path with the conditions %s: expected `isnan(e0) || e < e0`, then `isnan(e1) || e < e1`" % cv
+            continue
+        got = (slot(o, "HE", "2*d", E0), slot(o, "HB", "2*d", A0), slot(o, "HE", "1 + 2*d", E1), slot(o, "HB", "1 + 2*d", A1))
+        seen[kind] = got
+        if got != want[kind]:
+            bad = bad or "when the new energy %s, the slots (e0, acceptor0, e1, acceptor1) become %s, expected %s" % (
+                {"first": "is lower than the best", "second": "lies between the best and the second best", "none": "is not lower than either"}[kind], got, want[kind])
+    if bad is None and set(seen) != {"first", "second", "none"}:
+        bad = "paths found: %s" % sorted(seen)
+    ctx.decide(bad is None, "C14-R3", C.line(se), GEO, "store_energies", "per donor the two lowest energies are kept: new best shifts the old best to slot 1, a new second best replaces slot 1, otherwise nothing changes", "", bad or "")
 
 
 # ---------------------------------------------------------------------------------------------------
